@@ -140,3 +140,62 @@ pub fn check_bytes(b: &[u8], ext_branch: u32) -> Result<String, String> {
     }
     Ok("accept".into())
 }
+
+/// What the contiguous-slice parse of a byte string yields (the 0-deviation reference run).
+pub struct SliceParse {
+    consumed: usize,
+    /// `Err`: the rejection message.
+    value: Result<(TxSpec, Result<Vec<u8>, String>, [u8; 32], Result<[u8; 32], String>), String>,
+}
+
+fn observe(tx: &Transaction) -> (TxSpec, Result<Vec<u8>, String>, [u8; 32], Result<[u8; 32], String>) {
+    (extract(tx), write_tx(tx).map_err(|e| e.to_string()), *tx.txid().as_ref(), catch(|| <[u8; 32]>::try_from(tx.auth_commitment().as_bytes()).unwrap()))
+}
+
+pub fn slice_parse(b: &[u8], ext_branch: u32) -> Result<SliceParse, String> {
+    let (res, consumed) = read_catch(b, ext_branch)?;
+    Ok(SliceParse { consumed, value: res.map(|tx| observe(&tx)).map_err(|e| e.to_string()) })
+}
+
+/// Environment-answer side: the same bytes delivered through a reader that returns short reads
+/// (or one `Interrupted`) must give exactly what the contiguous-slice parse (`base`) gives.
+pub fn check_reader_with(b: &[u8], ext_branch: u32, answers: Answers, base: &SliceParse) -> Result<String, String> {
+    let br = branch_id(ext_branch)?;
+    let (res1, consumed1, shorts) = catch(|| read_tx_scripted(b, br, answers)).map_err(|p| format!("Transaction::read panicked under reader answers {}: {p}", answers.name()))?;
+    let dev = if shorts > 0 { "short" } else { "noshort" };
+    let n = answers.name();
+    match (&base.value, res1) {
+        (Err(_), Err(_)) => Ok(format!("reader:{dev}:both-reject")),
+        (Err(e), Ok(_)) => Err(format!("a stream that is rejected from a slice ({e}) is accepted under reader answers {n}")),
+        (Ok(_), Err(e)) => Err(format!("parses from a slice but fails under reader answers {n} ({e}): the result must not depend on how the reader delivers the bytes")),
+        (Ok((spec0, w0, txid0, auth0)), Ok(t1)) => {
+            let (spec1, w1, txid1, auth1) = observe(&t1);
+            if base.consumed != consumed1 {
+                return Err(format!("consumed {consumed1} bytes under reader answers {n}, {} from a slice", base.consumed));
+            }
+            let d = diff(&spec1, spec0);
+            if !d.is_empty() {
+                return Err(format!("field {d} differs under reader answers {n}"));
+            }
+            if *w0 != w1 {
+                return Err(format!("re-serialisation differs under reader answers {n}"));
+            }
+            if *txid0 != txid1 {
+                return Err(format!(
+                    "identifier: txid() differs when the same bytes arrive through short reads (reader answers {n}): {} vs {} from a slice; the identifier must be that of the bytes consumed",
+                    hex::encode(txid1),
+                    hex::encode(txid0)
+                ));
+            }
+            if *auth0 != auth1 {
+                return Err(format!("auth_commitment differs under reader answers {n}"));
+            }
+            Ok(format!("reader:{dev}:same"))
+        }
+    }
+}
+
+pub fn check_reader(b: &[u8], ext_branch: u32, answers: Answers) -> Result<String, String> {
+    let base = slice_parse(b, ext_branch)?;
+    check_reader_with(b, ext_branch, answers, &base)
+}
